@@ -36,8 +36,10 @@ def text_of_width(rng, w, first_alpha=True):
 
 def parse_frame_text(s):
     """Returned string -> observation (blocks, total).  Pure structure, no verdicts."""
-    obs = {"wellformed": False, "blocks": [], "total": -1}
+    obs = {"wellformed": False, "blocks": [], "total": -1, "stray": False}
     lines = s.split("\n")
+    # a line boundary other than "\n" (\r, \x0b, \x0c, \x1c-\x1e, \x85, U+2028, U+2029) left inside a line
+    obs["stray"] = any(len(ln.splitlines()) > 1 or ln != "".join(ln.splitlines()) for ln in lines)
     if len(lines) < 2 or lines[0] != ".":
         return obs
     m = TOTAL_RE.match(lines[-1])
@@ -117,7 +119,7 @@ def do_layout(rng, lay):
     how = rng.choice(["to_string", "print_"])
     rec = {"k": "frame", "how": how, "err": "", "pure": True, "empty": False,
            "in": {"nrow": nrow, "cols": [], "maxRows": max_rows, "maxWidth": lay["mw"]},
-           "obs": {"wellformed": False, "blocks": [], "total": -1}, "drift": False}
+           "obs": {"wellformed": False, "blocks": [], "total": -1, "stray": False}, "drift": False}
     try:
         d = build_layout_frame(rng, lay["ws"], nrow)
         rec["in"]["cols"] = list(d.keys())
@@ -152,7 +154,8 @@ def random_column(rng, n):
     if kind == "strw":
         return di.Vector([rng.choice(["漢字", "ét́", "ＡＢ", "ä€", ""]) for _ in range(n)], str)
     if kind == "strml":
-        return di.Vector([rng.choice(["one\ntwo", "a\n", "\nb", "plain"]) for _ in range(n)], str)
+        return di.Vector([rng.choice(["one\ntwo", "a\n", "\nb", "plain", "cr\r\nlf", "x\ry", "p\x0bq", "f\x0cg", "u\u2028v", "w\x85z", "r\x1es"])
+                          for _ in range(n)], str)
     if kind == "date":
         return di.Vector([rng.choice([datetime.date(1, 1, 1), datetime.date(2024, 2, 29), None]) for _ in range(n)], "datetime64[D]")
     if kind == "datetime":
@@ -163,7 +166,7 @@ def random_column(rng, n):
         return di.Vector([rng.choice([b"ab", b"\xff"]) for _ in range(n)])
     if kind == "obj":
         # (no tuples / lists: NumPy would build a 2-D array from them)
-        return di.Vector([rng.choice([frozenset([1]), {"k": [1]}, None, "s\nt", "u\n", 3.5]) for _ in range(n)], object)
+        return di.Vector([rng.choice([frozenset([1]), {"k": [1]}, None, "s\nt", "u\n", 3.5, "v\r\nw", "y\u2029z"]) for _ in range(n)], object)
     if kind == "objna":
         return di.Vector([None] * n, object)
     return di.Vector([math.nan] * n, float)
@@ -190,7 +193,7 @@ def do_random_frame(rng):
             kw["truncate_width"] = rng.choice([2, 5, 12, 36])
     rec = {"k": "frame", "how": how, "err": "", "pure": True, "empty": False,
            "in": {"nrow": nrow, "cols": [], "maxRows": eff_rows, "maxWidth": kw.get("max_width", 0)},
-           "obs": {"wellformed": False, "blocks": [], "total": -1}, "drift": False}
+           "obs": {"wellformed": False, "blocks": [], "total": -1, "stray": False}, "drift": False}
     old = (di.PRINT_MAX_ROWS, di.PRINT_TRUNCATE_WIDTH, di.PRINT_FLOAT_PRECISION, di.PRINT_THOUSAND_SEPARATOR)
     try:
         if rng.random() < 0.3:
@@ -216,6 +219,39 @@ def do_random_frame(rng):
     return rec
 
 
+def do_random_geo(rng, how):
+    """A GeoJSON object is a data frame with a geometry column: its rendering is judged like any frame's."""
+    import dataiter as di
+    n = rng.choice([0, 1, 3, 4, 9])
+    kw = {}
+    eff_rows = 100
+    if how in ("to_string", "print_") and rng.random() < 0.7:
+        kw["max_rows"] = eff_rows = rng.choice([1, 2, 5])
+    if how in ("to_string", "print_") and rng.random() < 0.4:
+        kw["max_width"] = rng.choice([14, 33, 80])
+    if how in ("to_string", "print_") and rng.random() < 0.3:
+        kw["truncate_width"] = rng.choice([5, 12, 36])
+    rec = {"k": "frame", "cls": "GeoJSON", "how": how, "err": "", "pure": True, "empty": False,
+           "in": {"nrow": n, "cols": [], "maxRows": eff_rows, "maxWidth": kw.get("max_width", 0)},
+           "obs": {"wellformed": False, "blocks": [], "total": -1, "stray": False}, "drift": False}
+    try:
+        geoms = [{"type": "Point", "coordinates": [1, 2]}, None, {"type": "LineString", "coordinates": [[0, 0], [1, 1]]}]
+        cols = {random_name(rng, i): random_column(rng, n) for i in range(rng.choice([0, 1, 2]))}
+        obj = di.GeoJSON(**cols, geometry=di.Vector([rng.choice(geoms) for _ in range(n)], object))
+        obj.metadata["name"] = "x"
+        if rng.random() < 0.25:
+            obj.group_by(list(obj.keys())[0])
+        rec["in"]["cols"] = list(obj.keys())
+        before = snapshot(obj)
+        s = render(obj, how, kw)
+        rec["pure"] = snapshot(obj) == before
+        rec["empty"] = s == ""
+        rec["obs"] = parse_frame_text(s)
+    except Exception as e:
+        rec["err"] = type(e).__name__ + ": " + str(e)[:80]
+    return rec
+
+
 def do_random_other(rng):
     import dataiter as di
     cls = rng.choice(["Vector", "ListOfDicts", "GeoJSON"])
@@ -236,7 +272,7 @@ def do_random_other(rng):
             rec["shape_ok"] = s.startswith("[") and s.rstrip().endswith("] " + label)
         elif cls == "ListOfDicts":
             n = rng.choice([0, 1, 3, 15])
-            obj = di.ListOfDicts([{"a": rng.choice([1, None, "x\ny", 2.5]), **({"b": [1, {"c": None}]} if rng.random() < 0.5 else {})}
+            obj = di.ListOfDicts([{"a": rng.choice([1, None, "x\ny", 2.5, math.nan, math.inf, -math.inf]), **({"b": [1, {"c": None}]} if rng.random() < 0.5 else {})}
                                   for _ in range(n)])
             if how in ("to_string", "print_") and rng.random() < 0.7:
                 kw["max_items"] = rng.choice([1, 2, 20])
@@ -248,17 +284,7 @@ def do_random_other(rng):
             parsed = json.loads(body)
             rec["shape_ok"] = (len(parsed) == min(n, shown)) and ((m is not None and int(m.group(1)) == n) == (shown < n))
         else:
-            n = rng.choice([0, 1, 3])
-            geoms = [{"type": "Point", "coordinates": [1, 2]}, None, {"type": "LineString", "coordinates": [[0, 0], [1, 1]]}]
-            obj = di.GeoJSON(p=di.Vector([rng.choice(["a", ""]) for _ in range(n)], str),
-                             geometry=di.Vector([rng.choice(geoms) for _ in range(n)], object))
-            obj.metadata["name"] = "x"
-            if how in ("to_string", "print_") and rng.random() < 0.6:
-                kw["max_rows"] = rng.choice([1, 5])
-            before = snapshot(obj)
-            s = render(obj, how, kw)
-            o = parse_frame_text(s)
-            rec["shape_ok"] = o["wellformed"] and sum(len(b["names"]) for b in o["blocks"]) == 2
+            return do_random_geo(rng, how)
         rec["pure"] = snapshot(obj) == before
     except Exception as e:
         rec["err"] = type(e).__name__ + ": " + str(e)[:80]
@@ -267,7 +293,8 @@ def do_random_other(rng):
 
 def sig_of(rec):
     if rec["k"] == "frame":
-        return {"k": "frame", "how": rec["how"], "nrow0": rec["in"]["nrow"] == 0, "ncol0": not rec["in"]["cols"]}
+        return {"k": "frame", "cls": rec.get("cls", "DataFrame"), "how": rec["how"], "nrow0": rec["in"]["nrow"] == 0,
+                "ncol0": not rec["in"]["cols"]}
     return {"k": "any", "cls": rec["cls"], "how": rec["how"]}
 
 
@@ -318,7 +345,8 @@ def replay(ctx, rp):
         recs = []
         for s in range(40):
             rng = random.Random(s)
-            recs.append(do_random_frame(rng) if r0["k"] == "frame" else do_random_other(rng))
+            recs.append(do_random_geo(rng, r0["how"]) if r0.get("cls") == "GeoJSON" else
+                        do_random_frame(rng) if r0["k"] == "frame" else do_random_other(rng))
         recs = [x for x in recs if sig_of(x) == sig_of(r0)] or recs
         bad = ctx.validate("RenderTrace", [{k: v for k, v in x.items() if k != "drift"} for x in recs])
         for i, clause in bad:
